@@ -97,12 +97,13 @@ Inductive exn :=
 | TypeError
 | KeyError
 | SympifyError
+| IndexError
 | UserExn (c : nat).
 
 Definition exn_eqb (a b : exn) : bool :=
   match a, b with
   | RuntimeError, RuntimeError | TypeError, TypeError | KeyError, KeyError
-  | SympifyError, SympifyError => true
+  | SympifyError, SympifyError | IndexError, IndexError => true
   | UserExn c, UserExn d => Nat.eqb c d
   | _, _ => false
   end.
